@@ -77,7 +77,9 @@ def expected_defs(nodes: Dict[str, List[str]], root_uses: List[str], disc: Set[s
 # structure of a description (independent of apischema: from the statement's notion of named type)
 
 
-def structure_of(td, descs: Dict[str, M.Obj]) -> Tuple[Dict[str, List[str]], List[str], Set[str]]:
+def structure_of(td, descs: Dict[str, M.Obj], direction: str = "deserialization") -> Tuple[Dict[str, List[str]], List[str], Set[str]]:
+    """the fields of an object that belong to a direction: a field(init=False) cannot be given,
+    so it is read-only (serialization only); an InitVar is write-only (deserialization only)"""
     nodes: Dict[str, List[str]] = {}
     disc: Set[str] = set()
 
@@ -106,6 +108,8 @@ def structure_of(td, descs: Dict[str, M.Obj]) -> Tuple[Dict[str, List[str]], Lis
         res: List[str] = []
         if isinstance(t, M.Obj):
             for f in t.fields:
+                if direction == "deserialization" and not f.init:
+                    continue
                 res += uses(f.t)
         elif isinstance(t, M.NewT):
             res += uses(t.t)
@@ -122,6 +126,9 @@ NA = M.NewT("NA", P.A)
 S4 = M.Obj("dataclass", "S4", (M.Fld("x", NA), M.Fld("y", P.A), M.Fld("m", M.Mapp(STR, NA), factory="dict")))
 S5 = M.Obj("typeddict", "S5", (M.Fld("n", P.NT), M.Fld("ns", M.Coll("list", P.NT), td_required=False), M.Fld("t", P.TD1)))
 S6 = M.Obj("namedtuple", "S6", (M.Fld("k", M.Mapp(P.NAME, P.NAME)), M.Fld("u", M.Uni((P.USERID, STR)))))
+RO1 = M.Obj("dataclass", "RO1", (M.Fld("x", P.A), M.Fld("st", P.B, init=False, has_default=True, default=None), M.Fld("sts", M.Coll("list", P.COLOR), init=False, factory="list")))
+RO2 = M.Obj("dataclass", "RO2", (M.Fld("value", INT), M.Fld("kids", M.Coll("list", M.Ref("RO2")), init=False, factory="list")))
+RO3 = M.Obj("dataclass", "RO3", (M.Fld("a", P.A), M.Fld("a2", M.Opt(P.A), init=False, has_default=True, default=None), M.Fld("r", M.Opt(RO2), has_default=True, default=None)))
 S7 = M.Obj("dataclass", "S7", (M.Fld("d", P.D), M.Fld("a", M.Tup((P.A, INT)))))
 
 
@@ -135,6 +142,11 @@ def description_graphs(tier: str, realm: M.Realm) -> List[Graph]:
         S5,
         S6,
         S7,
+        RO1,
+        RO2,
+        RO3,
+        M.Coll("list", RO2),
+        M.Tup((RO1, M.Opt(P.B))),
         M.Tup((P.A, P.A)),
         M.Coll("list", P.D),
         M.Mapp(STR, M.Uni((P.A, P.B))),
@@ -154,8 +166,9 @@ def description_graphs(tier: str, realm: M.Realm) -> List[Graph]:
     out = []
     for td in tds:
         tp = M.realize(td, realm)
-        nodes, root_uses, disc = structure_of(td, realm.descs)
-        out.append(Graph(tname(td), tp, nodes, root_uses, disc, native=False))
+        nodes, root_uses, disc = structure_of(td, realm.descs, "deserialization")
+        ser_nodes, ser_root_uses, ser_disc = structure_of(td, realm.descs, "serialization")
+        out.append(Graph(tname(td), tp, nodes, root_uses, disc | ser_disc, native=False, ser_nodes=ser_nodes, ser_root_uses=ser_root_uses))
     return out
 
 
@@ -371,6 +384,79 @@ def native_graphs(realm: M.Realm) -> List[Graph]:
     own(SA, SB)
     out.append(Graph("SA{v; serialized other->Opt[SB]}, SB{w; serialized back->Opt[SA]} (recursion through serialized methods)", SA, {"SA": [], "SB": []}, ["SA"], ser_nodes={"SA": ["SB"], "SB": ["SA"]}))
 
+    # -- fields that exist in one direction only: InitVar (write-only), init=False (read-only),
+    #    skip(deserialization / serialization), direction-specific field conversions
+    from dataclasses import InitVar
+
+    from apischema.metadata import conversion as fconv
+    from apischema.metadata import skip
+
+    @dc
+    class Stats:
+        n: int = 0
+
+    @dc
+    class Secret:
+        key: str = ""
+
+    @dc
+    class Acct:
+        owner: Foo
+        secret: InitVar[Secret]
+        secret2: InitVar[TOpt[Secret]] = None
+        stats: Stats = dfield(init=False, default_factory=Stats)
+        history: TList[Stats] = dfield(init=False, default_factory=list)
+
+        def __post_init__(self, secret, secret2):
+            pass
+
+    own(Stats, Secret, Acct)
+    out.append(Graph("Acct{owner:Foo; secret,secret2:InitVar[Secret] (write-only); stats:Stats,history:List[Stats] init=False (read-only)}", Acct, {"Acct": ["Foo", "Secret", "Secret"], "Foo": [], "Secret": []}, ["Acct"], ser_nodes={"Acct": ["Foo", "Stats", "Stats"], "Foo": [], "Stats": []}))
+    out.append(Graph("List[Acct]", TList[Acct], {"Acct": ["Foo", "Secret", "Secret"], "Foo": [], "Secret": []}, ["Acct"], ser_nodes={"Acct": ["Foo", "Stats", "Stats"], "Foo": [], "Stats": []}))
+
+    ns2: Dict[str, Any] = {"typing": typing, "dc": dc, "dfield": dfield, "InitVar": InitVar}
+    exec(
+        "@dc\n"
+        "class RNode:\n"
+        "    value: int\n"
+        "    children: typing.List['RNode'] = dfield(init=False, default_factory=list)\n",
+        ns2,
+    )
+    RNode = ns2["RNode"]
+    own(RNode)
+    setattr(realm.module, "RNode", RNode)
+    out.append(Graph("RNode{value; children:List[RNode] init=False} (recursive through a read-only field only)", RNode, {"RNode": []}, ["RNode"], ser_nodes={"RNode": ["RNode"]}))
+    out.append(Graph("Dict[str,RNode]", TDict[str, RNode], {"RNode": []}, ["RNode"], ser_nodes={"RNode": ["RNode"]}))
+
+    @dc
+    class In1:
+        i: int = 0
+
+    @dc
+    class Out1:
+        o: int = 0
+
+    @dc
+    class Mid:
+        m: int = 0
+
+    def mid_from_in(x: In1) -> Mid:
+        return Mid(x.i)
+
+    def mid_to_out(x: Mid) -> Out1:
+        return Out1(x.m)
+
+    @dc
+    class Skips:
+        both: Foo
+        only_out: Bar = dfield(default_factory=Bar, metadata=skip(deserialization=True))
+        only_in: TOpt[Elt] = dfield(default=None, metadata=skip(serialization=True))
+        conv: Mid = dfield(default_factory=Mid, metadata=fconv(deserialization=mid_from_in, serialization=mid_to_out))
+        convs: TList[Mid] = dfield(default_factory=list, metadata=fconv(deserialization=mid_from_in, serialization=mid_to_out))
+
+    own(In1, Out1, Mid, Skips)
+    out.append(Graph("Skips{both:Foo; only_out:Bar skip(deserialization); only_in:Opt[Elt] skip(serialization); conv:Mid,convs:List[Mid] field conversions In1->Mid / Mid->Out1}", Skips, {"Skips": ["Foo", "Elt", "In1", "In1"], "Foo": [], "Elt": [], "In1": []}, ["Skips"], ser_nodes={"Skips": ["Foo", "Bar", "Out1", "Out1"], "Foo": [], "Bar": [], "Out1": []}))
+
     # -- anonymous generic specialization: its body is used at each occurrence
     @dc
     class Box(Generic[T]):
@@ -491,6 +577,50 @@ def clash_cases(realm: M.Realm) -> List[Tuple[str, Callable[[str, dict], Any], b
         ("control: Tuple[GBox[int],GBox[int]]", schema_of(typing.Tuple[GBox[int], GBox[int]]), False),
         ("control: definitions_schema([Same#1,List[Same#1]])", defs_of(Same1, TList[Same1]), False),
     ]
+
+
+def cross_direction_pairs(realm: M.Realm) -> List[Tuple[str, Any, Any, str]]:
+    """(label, T_deserialization, T_serialization, shared name): two types carrying one type name,
+    one given to definitions_schema(deserialization=...), the other to serialization=.  Generated
+    systematically: families of shapes whose members are equal / differ by a scalar / differ by
+    the length of a list (strict prefix, either side longer) / differ by one element of a list,
+    each family also nested below containers and inside the properties of same-named classes."""
+    import typing
+    from dataclasses import dataclass as dc
+    from typing import Dict as TDict
+    from typing import List as TList
+    from typing import Literal, Optional as TOpt, Union
+
+    from apischema import schema, type_name
+    from apischema.typing import Annotated
+
+    mod = realm.name
+    keep = realm.built.setdefault("native:keep", [])
+    families: Dict[str, List[Tuple[str, Any]]] = {
+        "enum": [("Lit[on,off]", Literal["on", "off"]), ("Lit[on,off,unknown]", Literal["on", "off", "unknown"]), ("Lit[on,of]", Literal["on", "of"]), ("Lit[on]", Literal["on"])],
+        "type-array": [("int|str", Union[int, str]), ("int|str|bool", Union[int, str, bool]), ("int|bool", Union[int, bool]), ("int", int)],
+        "anyOf": [("int|List[str]", Union[int, TList[str]]), ("int|List[str]|Dict[str,int]", Union[int, TList[str], TDict[str, int]]), ("int|List[int]", Union[int, TList[int]])],
+        "prefixItems": [("Tuple[int,str]", typing.Tuple[int, str]), ("Tuple[int,str,bool]", typing.Tuple[int, str, bool]), ("Tuple[int,int]", typing.Tuple[int, int])],
+        "scalar": [("int<min=1>", Annotated[int, schema(min=1)]), ("int<min=2>", Annotated[int, schema(min=2)]), ("int<min=1,max=5>", Annotated[int, schema(min=1, max=5)]), ("str", str)],
+        "nested": [("List[Opt[Lit[a,b]]]", TList[TOpt[Literal["a", "b"]]]), ("List[Opt[Lit[a,b,c]]]", TList[TOpt[Literal["a", "b", "c"]]]), ("Dict[str,Tuple[int,Lit[a,b]]]", TDict[str, typing.Tuple[int, Literal["a", "b"]]]), ("Dict[str,Tuple[int,Lit[a,b,c]]]", TDict[str, typing.Tuple[int, Literal["a", "b", "c"]]])],
+    }
+
+    def holder(inner):
+        cls = dc(type("Holder", (), {"__annotations__": {"k": inner, "ks": TList[inner]}}))
+        cls.__module__ = mod
+        keep.append(cls)
+        return cls
+
+    out: List[Tuple[str, Any, Any, str]] = []
+    for fam, members in families.items():
+        for la, a in members:
+            for lb, b in members:
+                ta, tb = Annotated[a, type_name("Shared")], Annotated[b, type_name("Shared")]
+                out.append((f"{fam}: {la} / {lb} both named 'Shared'", ta, tb, "Shared"))
+                out.append((f"{fam}: List[{la}] / Dict[str,{lb}] elements named 'Shared'", TList[ta], TDict[str, tb], "Shared"))
+                # two distinct classes with one name and the same property names, differing (or not) inside a property
+                out.append((f"{fam}: class Holder{{k:{la}}} / class Holder{{k:{lb}}} (distinct classes)", holder(a), holder(b), "Holder"))
+    return out
 
 
 # ---------------------------------------------------------------------------
@@ -655,9 +785,55 @@ def run(report, tier: str, seed: int, log_name: str = "schema_references"):
                             log.fail(f"clash-merged:{label}:{direction}:all_refs={all_refs}:{vname}", f"two distinct types sharing a name were not refused: {label} ({direction}, all_refs={all_refs}, {vname}) returned {str(res)[:200]}", case, observed=repr(res)[:600], expected="TypeError / ValueError naming the clash", functions_involved=["RefsExtractor._incr_ref", "_extract_refs"])
                         if not must_refuse and refused is not None:
                             log.fail(f"refused-without-clash:{label}:{direction}:all_refs={all_refs}:{vname}", f"generation refused although no two distinct types share a name: {label}: {refused!r}", case, observed=repr(refused), functions_involved=["RefsExtractor._incr_ref", "get_type_name"])
+        # -- one name in both directions of definitions_schema: merged iff the two definitions are the same
+        pairs = cross_direction_pairs(realm)
+        log.stats["bound"] += f"; {len(pairs)} (deserialization type, serialization type) pairs sharing a name (6 families: equal / scalar / list-prefix / list-element / nested differences) x all_refs x 2 versions"
+        for label, ta, tb, shared in pairs:
+            for all_refs, wrap in ((True, lambda t: t), (False, lambda t: __import__("typing").Tuple[t, t])):
+                for vname in ("2020-12", "oas-3.0") if tier == "thorough" or all_refs else ("2020-12",):
+                    key = ("cross-direction", label, all_refs, vname)
+                    case = {"deserialization": label.split(" / ")[0], "serialization": label, "all_refs": all_refs, "version": vname}
+                    log.case(key, True, sample=case)
+                    o = {"all_refs": all_refs, "version": versions[vname]}
+                    try:
+                        with time_limit(10):
+                            d_only = dict(definitions_schema(deserialization=[wrap(ta)], **o))
+                            s_only = dict(definitions_schema(serialization=[wrap(tb)], **o))
+                    except Exception as e:
+                        log.fail(f"generation-crash:cross-direction:{label}:all_refs={all_refs}:{vname}:{type(e).__name__}", f"definitions_schema of one direction raised for {label}: {e!r}", case, observed=repr(e), functions_involved=["definitions_schema"])
+                        continue
+                    if shared not in d_only or shared not in s_only:
+                        log.fail(f"defs-names:cross-direction:{label}:all_refs={all_refs}:{vname}", f"definition {shared!r} missing from the single-direction definitions of {label} ({sorted(d_only)} / {sorted(s_only)})", case, functions_involved=inv_cross)
+                        continue
+                    same = all(d_only[n] == s_only[n] for n in set(d_only) & set(s_only))
+                    try:
+                        with time_limit(10):
+                            both = dict(definitions_schema(deserialization=[wrap(ta)], serialization=[wrap(tb)], **o))
+                        refused = None
+                    except (TypeError, ValueError) as e:
+                        refused = e
+                    except Exception as e:
+                        log.fail(f"generation-crash:cross-direction:{label}:all_refs={all_refs}:{vname}:{type(e).__name__}", f"definitions_schema(deserialization=.., serialization=..) raised {type(e).__name__} for {label}: {str(e)[:160]}", case, observed=repr(e), functions_involved=inv_cross)
+                        continue
+                    if not same and refused is None:
+                        log.fail(
+                            f"clash-merged:cross-direction:{label}:all_refs={all_refs}:{vname}",
+                            f"definitions_schema(deserialization=[..], serialization=[..]) merged two different definitions of {shared!r} ({label}, all_refs={all_refs}, {vname}): {d_only[shared]} and {s_only[shared]} became {both.get(shared)}",
+                            {**case, "deserialization_definition": d_only[shared], "serialization_definition": s_only[shared], "merged": both.get(shared)},
+                            observed=both.get(shared),
+                            expected="TypeError: the reference has different schemas for deserialization and serialization",
+                            functions_involved=inv_cross,
+                        )
+                    elif same and refused is not None:
+                        log.fail(f"refused-without-clash:cross-direction:{label}:all_refs={all_refs}:{vname}", f"definitions_schema refused {label} although both directions give the same definition of {shared!r}: {refused!r}", case, observed=repr(refused), functions_involved=inv_cross)
+                    elif same and any(both.get(n) != d_only[n] for n in d_only):
+                        log.fail(f"defs-differ:cross-direction:{label}:all_refs={all_refs}:{vname}", f"definitions_schema of both directions differs from the (identical) single-direction definitions for {label}", {**case, "merged": both, "single": d_only}, observed=both, expected=d_only, functions_involved=inv_cross)
     finally:
         realm.dispose()
     return log
+
+
+inv_cross = ["definitions_schema", "compare_schemas", "_defs_schema"]
 
 
 def _one(report, log, g: Graph, direction, nodes, root_uses, extra, vname, version, dia, all_refs, factory_name, with_schema, entry, definitions_schema):
